@@ -320,7 +320,9 @@ CHECKS["C17"] = dict(
                   inst("internal/tree", "VHCommandArgs", {"ITEMS": 2, "N": 4}, workers=16, must_reach=["rearranged", "expression", "number", "string"]),
                   inst("internal/tree", "VHCommandArgs", {"ITEMS": 3, "N": 3}, workers=16, must_reach=["rearranged", "expression", "string"]),
                   _world("VHNextStep", DEPTH=2, QLEN=2, BUDGET=1, VISCFG=1, HEAD=6, must_reach=["handler-args", "fail", "end-by-stop"])]),
-    assumptions=["chunk bytes: anything but > { CR LF (the COMMAND_TEXT alphabet); adjacent text chunks do not occur (lexer contract)"],
+    assumptions=["chunk bytes: anything but > { CR LF (the COMMAND_TEXT alphabet); adjacent text chunks do not occur (lexer contract)",
+                 "Unicode whitespace other than space and tab (VT, FF, U+0085, U+00A0, U+1680, U+2000.., U+3000) is kept out of the alphabet: the "
+                 "property says `whitespace-separated` and the check takes no side on it"],
 )
 
 # ---------------------------------------------------------------- lexer / loader: C05, C08 (and the token-balance half of C20)
